@@ -6,6 +6,7 @@ import (
 	"bytes"
 	"crypto/sha256"
 	"crypto/sha512"
+	"encoding/base64"
 	"encoding/hex"
 	"encoding/json"
 	"fmt"
@@ -15,6 +16,7 @@ import (
 	"net/http/httptest"
 	"os"
 	"path/filepath"
+	"runtime"
 	"runtime/debug"
 	"sort"
 	"strconv"
@@ -327,6 +329,22 @@ type reqOpt struct {
 	multiHdr  map[string][]string
 	unknownCL bool
 	remote    string
+	chunkRead int // >0: the body is delivered in reads of at most this many bytes (as from a network connection)
+}
+
+// slowReader hands out at most n bytes per Read and hides WriterTo, so that io.Copy on the server side takes
+// several Write calls as it does with a body that arrives over a connection.
+type slowReader struct {
+	r io.Reader
+	n int
+}
+
+func (s *slowReader) Read(p []byte) (int, error) {
+	if len(p) > s.n {
+		p = p[:s.n]
+	}
+	runtime.Gosched()
+	return s.r.Read(p)
 }
 
 // doReq runs one request in-process. A panic of the handler is captured, not propagated.
@@ -334,6 +352,9 @@ func doReq(h http.Handler, method, url string, body []byte, o *reqOpt) (r resp) 
 	var rdr io.Reader
 	if body != nil {
 		rdr = bytes.NewReader(body)
+	}
+	if o != nil && o.chunkRead > 0 && rdr != nil {
+		rdr = &slowReader{r: rdr, n: o.chunkRead}
 	}
 	var req *http.Request
 	func() {
@@ -471,4 +492,9 @@ func contains(l []string, x string) bool {
 		}
 	}
 	return false
+}
+
+// stateTok builds the state token the server hands out for an upload session at the given offset.
+func stateTok(off int) string {
+	return base64.RawURLEncoding.EncodeToString([]byte(fmt.Sprintf(`{"offset":%d}`, off)))
 }
